@@ -573,7 +573,7 @@ def run(P, ctx):
                                 "LRU/FIFO definition shapes.")
     res.extra["assumptions"] = ["the base operations of the tracking structures (LruList, HashMap, VecDeque, Vec, generational_arena) behave as documented",
                                 "ARC's b1/b2 are ghost lists (non-resident history): leaving them is not 'stops tracking a resident'"]
-    res.notes.append("RandomPolicy is cfg(feature = \"random\"): analysed in the thorough tier's fibre_cache+full configuration only.")
+    res.notes.append("RandomPolicy is cfg(feature = \"random\"), a default feature: it is part of the quick configuration.")
     res.notes.append("Not decided: which victim a policy picks beyond the LRU/FIFO shapes (segment sizing, ARC's p, sketch estimates, clock hand), "
                      "'frees at least the requested cost' as a number (e.g. ARC's replace() gives up when T1 is below p and T2 is empty; TinyLFU never "
                      "evicts from its window), zero-cost keys.")
